@@ -65,6 +65,8 @@ prop("C06", "break / continue / lazybreak steer loops as documented", [
     ("continue_abandons_rest", "body_cons_cont", "continue abandons the rest of the iteration (a lazybreak seen before it survives)"),
     ("break_abandons_rest", "body_cons_break", "break abandons the rest of the iteration"),
     ("lazybreak_lets_iteration_finish", "body_cons_lazy", "lazybreak lets the iteration go on and is remembered"),
+    ("lazybreak_lets_block_finish", "rules_lz_cons_lazy", "also inside an if / switch block: the rest of the block still runs"),
+    ("block_hands_lazybreak_on", "rules_clean", "and the block hands the signal to the loop afterwards"),
     ("rest_of_iteration_not_executed", "body_rest_irrelevant", "what follows a break / continue / failing rule is not executed"),
     ("counter_loop_obeys", "cloop_run_is_go_loop", "counter loops: break / lazybreak end the loop and consume one level of depth, continue goes on (run_iters)"),
     ("pending_depth_ends_enclosing_counter_loop", "cloop_run_pending", "break N: a pending depth ends the enclosing counter loop before its next iteration and consumes one level"),
@@ -109,7 +111,7 @@ prop("C15", "A failing rule stops the decode and the failure is reported", [
 ])
 
 prop("C16", "Decode never panics, whatever the accepted program and the input", [
-    ("rule_sequence_total", "rules_app", "the model is a total function of tree, document and context: every list access of the decode path is a guarded match (no panic outcome exists in [err] besides the observation-only constructors)"),
+    ("rule_sequence_total", "rules_lz_app", "the model is a total function of tree, document and context: every list access of the decode path is a guarded match (no panic outcome exists in [err] besides the observation-only constructors)"),
     ("out_of_fuel_is_explicit", "follow_0", "running out of fuel is a distinguished error, excluded by the correspondence on Go-finite loops"),
     ("default_without_args_is_an_error", "default_arity", "default() without arguments is an error, not an index panic"),
     ("getters_without_args_are_errors", "getter_arity", "every builtin getter without arguments is an error"),
